@@ -261,6 +261,9 @@ def allPkts (m : M) : List Pkt :=
 def onEvent (m : M) (tid kind a b : Nat) : M :=
   if m.failed.isSome then m else
   let m := { m with nEv := m.nEv + 1 }
+  -- `make_request` that newly set a request must call `notify_one` next (same thread, under the mutex)
+  if getLastPush m tid == 1000 && kind != 12 && kind < 200 then
+    fail m "sched:shape" s!"make_request set a new request but did not notify (next event of thread {tid} is kind {kind})" else
   let wk := isWorkerTid m tid
   -- events inside a mutex-protected group of this worker
   let inGroup := match wk with | some w => !(getExp m w).isEmpty | none => false
